@@ -83,6 +83,29 @@ func genScanPlan(seed uint64, thorough bool) *Plan {
 			cmdItem("PEXPIRE", "gk0", "20"), cmdItem("PEXPIRE", "gl0", "20"), cmdItem("PEXPIRE", "gh0", "20"), cmdItem("PEXPIRE", "gs0", "20"),
 			cmdItem("SET", "uk0", "v"), cmdItem("RPUSH", "ul0", "a"), cmdItem("HSET", "uh0", "f", "v"), cmdItem("SADD", "us0", "m"),
 			cmdItem("UNLINK", "uk0", "ul0"), cmdItem("UNLINK", "uh0", "us0"), Item{Op: "adv", N: int64(50 * time.Millisecond)})
+		if g.chance(2) {
+			// ... and many of them: whatever an implementation does when it meets
+			// them during a walk (skip, reclaim) must not disturb the walk
+			nd := 20 + g.r.IntN(70)
+			ms := []string{"MSET"}
+			var un [][]string
+			cur := []string{"UNLINK"}
+			for i := 0; i < nd; i++ {
+				ms = append(ms, "dead"+strconv.Itoa(i), "v")
+				cur = append(cur, "dead"+strconv.Itoa(i))
+				if len(cur) > 25 {
+					un = append(un, cur)
+					cur = []string{"UNLINK"}
+				}
+			}
+			if len(cur) > 1 {
+				un = append(un, cur)
+			}
+			setup = append(setup, cmdItem(ms...))
+			for _, u := range un {
+				setup = append(setup, cmdItem(u...))
+			}
+		}
 	}
 	setup = append(setup, Item{Op: "barrier", N: 1})
 	// scanner
@@ -104,7 +127,7 @@ func genScanPlan(seed uint64, thorough bool) *Plan {
 			opts = append(opts, []string{"MATCH", g.pick("*", "e*", "e1*", "e?", "e[0-4]*", "*7", "nomatch*", "e[^1]*", "", "e[0-9]", "e1[0-9]", "e\\[*", "e\\**", "e\\?3", "e\\\\*", "e[\\]]*", "e[*?]*", "e\\^6", "e[!1]*", "[!e]*", "e[!0-4]*")})
 		}
 		if kind == "scan" && (g.chance(4) || typeBias && g.chance(2)) {
-			opts = append(opts, []string{"TYPE", g.pick("string", "list", "hash", "set", "zset")})
+			opts = append(opts, []string{"TYPE", g.kw(g.pick("string", "list", "hash", "set", "zset"))})
 		}
 		g.r.Shuffle(len(opts), func(i, j int) { opts[i], opts[j] = opts[j], opts[i] })
 		for _, o := range opts {
@@ -249,8 +272,15 @@ func genScanPlan(seed uint64, thorough bool) *Plan {
 			return a
 		}
 		items := []Item{{Op: "barrier", N: 1}}
+		lazy := kind == "scan" && g.chance(2)
 		for i := stable; i < stable+temps; i += 40 {
-			items = append(items, cmdItem(rm(i, min(i+40, stable+temps))...))
+			r := rm(i, min(i+40, stable+temps))
+			if lazy {
+				// the temporaries are unlinked: gone for every command, but an
+				// implementation may keep them stored until it meets them again
+				r[0] = "UNLINK"
+			}
+			items = append(items, cmdItem(r...))
 		}
 		base := stable + temps
 		// the table only halves after more removals than half its size: churn
